@@ -562,6 +562,9 @@ static StepResult do_op(V *roots, const std::vector<std::string> &t, std::string
         V             *tv = vivify(roots, l);
         const unsigned k  = (unsigned)strtoul(t[2].c_str(), nullptr, 10);
         bool           zero;
+        // operator=(ValueType) only rewrites the tag, so the payload must be all zero.  An Undefined value may be a
+        // moved-from scalar that still holds its old bits: Reset() it first (no observable change).
+        if (tv->Type() == ValueType::Undefined) tv->Reset();
         switch (tv->Type()) {
             case ValueType::Undefined:
             case ValueType::True:
